@@ -531,6 +531,75 @@ def _calls_with_argument(prog, fi: FuncInfo, pname: str):
     return out
 
 
+def d3c_prefix_compared_in_one_notation(chk: Check) -> None:
+    """`strip_path_prefix` decides by comparing path *texts*.  A rule path
+    and the merge point may be written in different notations
+    (`mergeat=settings`, rule `/settings/hosts`), so both are put into one
+    notation first.  Without that the texts share no prefix, the rule is
+    left un-stripped, matches nothing in the right-hand document and is
+    dropped with a warning: the merge uses the default policy."""
+    prog = chk.prog
+    chk.rule("C11-D3c", "strip_path_prefix sets the separator of both the "
+             "prefix and the path to one notation before comparing their "
+             "text", floor=2)
+    fi = prog.func("YAMLPath.strip_path_prefix")
+    params = [p_ for p_ in fi.params() if p_ not in ("self", "cls")]
+    for p_ in params[:2]:
+        sets = [a for a in walk_local(fi.node) if isinstance(a, ast.Assign)
+                and src(a.targets[0]) == p_ + ".separator"]
+        text = "strip_path_prefix: {}.separator".format(p_)
+        if sets:
+            chk.ok("C11-D3c", fi, sets[0], text, "set to " +
+                   src(sets[0].value))
+        else:
+            chk.fail("C11-D3c", fi, fi.node, text,
+                     "`{}` is compared in whatever notation it was written "
+                     "in: a dot-notation merge point is no textual prefix "
+                     "of a slash-notation rule path, so the rule is not "
+                     "re-based and never applies".format(p_))
+
+
+def d12_slot_presence_is_kind_aware(chk: Check) -> None:
+    """`ref in parent` asks a Hash whether it has that *key*, but asks an
+    Array whether it holds that *value*.  Used as "is the slot still
+    there?" on the coordinates of a merge target it is false for every
+    Array slot (an index is not among the elements), so a replacing merge
+    result (`aoh=right`, `arrays=unique` with duplicates ...) for a target
+    inside an Array is silently dropped while the merge reports success."""
+    prog = chk.prog
+    chk.rule("C11-D12", "no `<x>.parentref in <x>.parent` test in the "
+             "merger unless the parent is known to be a Hash", floor=8)
+    n = 0
+    for fi in prog.funcs_in("yamlpath/merger/merger.py"):
+        n += 1
+        bad = []
+        for c in walk_local(fi.node):
+            if isinstance(c, ast.Compare) and len(c.ops) == 1 and \
+                    isinstance(c.ops[0], (ast.In, ast.NotIn)) and \
+                    src(c.left).endswith("parentref") and \
+                    src(c.comparators[0]).endswith("parent"):
+                par = src(c.comparators[0])
+                hashy = any(f.kind == "cond" and f.pol and
+                            isinstance(f.expr, ast.Call) and
+                            src(f.expr.func) == "isinstance" and
+                            src(f.expr.args[0]) == par and
+                            ("dict" in src(f.expr.args[1]) or
+                             "CommentedMap" in src(f.expr.args[1]))
+                            for f in facts_at(c))
+                if not hashy:
+                    bad.append(c)
+        if bad:
+            chk.fail("C11-D12", fi, bad[0], "{}: `{}`".format(
+                fi.short, src(bad[0])),
+                "for an Array parent this tests whether the *index* is one "
+                "of the elements: the slot is reported missing and the "
+                "merge result for a target inside an Array is not stored")
+        else:
+            chk.ok("C11-D12", fi, fi.node, fi.short, "no such test", False)
+    if n < 8:
+        raise AnalysisError("functions examined: {}".format(n))
+
+
 def d7_policy_for_incoming_node(chk: Check) -> None:
     """The per-path rules of a merge are written against, and prepared for,
     the *incoming* (right-hand) document: MergerConfig looks a node up by
@@ -681,11 +750,19 @@ def run(chk: Check) -> None:
     d1b_result_lands_at_target(chk)
     d2_targets(chk)
     d3_rebase(chk)
-    d3b_strip(chk)
+    d3c_prefix_compared_in_one_notation(chk)
+    try:
+        d3b_strip(chk)
+    except AnalysisError:
+        # the folding cannot follow a routine that D3c has just reported;
+        # the verdict stands, an undecided fold alone would be an error
+        if not any(f.rule == "C11-D3c" for f in chk.findings):
+            raise
     d5_empty_is_not_absent(chk)
     d2d_policy_aware_insertion(chk)
     d7_policy_for_incoming_node(chk)
     d9_every_match_is_a_target(chk)
+    d12_slot_presence_is_kind_aware(chk)
     from rules.shared import effects_not_shortcircuited_rule
     effects_not_shortcircuited_rule(
         chk, "C11-D10", ("yamlpath/merger/merger.py",),
